@@ -24,7 +24,7 @@ from . import sim_c06 as pool
 
 ID = "C06"
 LEVEL = "proof"
-STRENGTH = "partial"   # never_early only under `Guard` (open F5b); liveness only under `LGuard` (open F8) and as reachability
+STRENGTH = "partial"   # never_early only under `Guard` (open F5b); liveness only under `LGuard` (open F9) and as reachability
 ENGINES = ["lean-model", "pyextract", "purediff", "kopfsim"]
 TIE = ("T (conditions and effects of the finalizer block of process_resource_causes + the carry filter of process_resource_event: "
        "AST → Lean, re-proved equal to the model, and `decision` = their composition) + D (real finalizers.block_deletion/"
@@ -43,7 +43,7 @@ LEVEL_TEXT = ("Lean theorems for ALL finalizer lists / fn sequences / decision i
               "finalizer again; harmless writes and any number of 422 are allowed), with never_early_fails + "
               "stale_release_via_merge_witness; (2) liveness: no_lost_wakeup (an operator step is always enabled for a waiting "
               "object) under LGuard = no 422 injected without a write (injected_422_loses_wakeup) and no handler-supplied no-op fns "
-              "in a cycle's patch (open F8/F9, noop_fn_loses_wakeup); 'once all are finished it is removed' as an INEVITABILITY has no "
+              "in a cycle's patch (open F9, carried_fn_loses_wakeup; the former F8 history is the regression theorem noop_fn_keeps_wakeup); 'once all are finished it is removed' as an INEVITABILITY has no "
               "theorem: release_reachable_when_quiet is reachability by the operator's steps alone with the environment's part of the "
               "cycle labels chosen quiet (consistent, no other delay, no re-scheduling) and all queued events already marked. "
               "'Abandoned after its timeouts' is an environment label here (C09 owns stop_daemons' stages). The LTS is "
@@ -53,10 +53,10 @@ THEOREMS = [("Kopf.Props.C06", "Kopf.C06." + n) for n in [
     "allow_after_block", "patch_is_fn_of_tested", "foreign_untouched_lts", "decision_spec",
     "never_early_partial", "never_early_inv_partial", "conflict_carries_nothing", "cycle_decides_anew",
     "stale_release_via_merge_witness", "never_early_fails",
-    "released_in_one_quiet_cycle", "wakeup_layer_refines", "no_lost_wakeup", "release_reachable_when_quiet", "injected_422_loses_wakeup", "noop_fn_loses_wakeup",
+    "released_in_one_quiet_cycle", "wakeup_layer_refines", "no_lost_wakeup", "release_reachable_when_quiet", "injected_422_loses_wakeup", "carried_fn_loses_wakeup", "noop_fn_keeps_wakeup",
     "add_on_match", "remove_on_mismatch", "add_remove_on_match"]]
 TIE_THEOREMS = [("Kopf.Tie.C06", "Kopf.C06.Tie." + n) for n in [
-    "mustBlock_eq", "add_eq", "remove_eq", "early_eq", "release_eq", "effects_eq", "decision_eq", "carry_eq"]]
+    "mustBlock_eq", "add_eq", "remove_eq", "early_eq", "release_eq", "effects_eq", "decision_eq", "carry_eq", "changed_eq"]]
 RULE = ("D: finalizer lists over an alphabet with the own name 0-3 times, look-alikes, unicode, empty/absent containers, and fn "
         "sequences of length 0-4 through the real functions and Patch.as_json_patch; S/A: seeded scenarios with 0-2 deletion handlers "
         "(optional/mandatory, label filters, one function STACKED twice under one id with different filters, outcome scripts, "
@@ -265,6 +265,25 @@ def extract(ctx: Ctx) -> None:
     if sorted(users) != ["kopf/_core/reactor/processing.py"] * (3 + in_filter):
         raise ExtractError(f"block_deletion/allow_deletion are referenced outside the three modelled sites and the carry filter: {sorted(set(users))}")
 
+    # application.apply: when is the sleep-then-touch for the delays skipped?
+    atree = pyextract.parse_file(ctx.repo / "kopf/_core/actions/application.py")
+    afn = pyextract.find_def(atree, "apply")
+    assigns = {n.targets[0].id: n.value for n in ast.walk(afn)
+               if isinstance(n, ast.Assign) and len(n.targets) == 1 and isinstance(n.targets[0], ast.Name)}
+    for name in ("unknown", "changed", "seen_version"):
+        if name not in assigns or sum(1 for n in ast.walk(afn) if isinstance(n, ast.Assign) and any(
+                isinstance(t, ast.Name) and t.id == name for t in n.targets)) != 1:
+            raise ExtractError(f"application.apply: expected exactly one assignment of `{name}`")
+    if pyextract.norm(assigns["seen_version"]) != "body.get('metadata', {}).get('resourceVersion')":
+        raise ExtractError("application.apply: `seen_version` is no longer the version of the body the cycle worked on")
+    ifs = [pyextract.norm(n.test) for n in ast.walk(afn) if isinstance(n, ast.If)]
+    if "delay and changed" not in ifs or "changed and (not delay)" not in ifs:
+        raise ExtractError("application.apply: the sleep is no longer skipped by `if delay and changed` / the touch by `if changed and not delay`")
+    atr = pyextract.BoolTranslator({"bool(patch)": "a.patchNonEmpty", "resource_version is None": "a.noVersion",
+                                    "resource_version is not None": "(!a.noVersion)", "remaining_patch is not None": "a.remaining",
+                                    "resource_version != seen_version": "a.versionDiffers"}, {"unknown": assigns["unknown"]})
+    changed_c = atr.tr(assigns["changed"])
+
     def eff(e: tuple[str, bool]) -> str:
         return f"({FN_LEAN[e[0]]}, {'true' if e[1] else 'false'})"
 
@@ -283,6 +302,8 @@ def extract(ctx: Ctx) -> None:
     out += f"def earlyReturnsBeforeRelease : Bool := {'true' if i_early < i_pcc < i_rel else 'false'}\n"
     out += "/-- the fns `_is_finalizer_fn` recognises: dropped from `memory.remaining_patch` after a rejected patch -/\n"
     out += f"def ownFns : List Fn := [{', '.join(dropped)}]\n\n"
+    out += "/-- application.apply: `changed` (the sleep-then-touch for the delays is skipped iff `delay and changed`) -/\n"
+    out += f"def changed (a : ApplyAtoms) : Bool :=\n  {changed_c}\n\n"
     out += "end Kopf.C06.Extracted\n"
     leanio.write_generated("Kopf/Extracted/C06.lean", out)
 
@@ -668,19 +689,24 @@ def _touch_only(req: dict) -> bool:
 
 
 def _changed(cyc: dict, ab: dict) -> bool:
-    """Did the cycle's patch change the object, as far as the operator can tell? A non-empty patch whose last
-    response carries a version other than the one the cycle worked on — or carries none (422/404), or releases the object."""
+    """Did the cycle's patch change the object, as far as the operator can tell? The last 200 response carries a
+    version other than the one the cycle worked on (or releases the object); or no version came back but the JSON
+    patch was rejected (HTTP 422: a newer change exists). A patch that sent no request at all did not."""
     merge, js = ab["merge"], ab["json"]
-    if merge is None and js is None and not ab["fns"] and not ab.get("user_fns"):
+    if merge is None and js is None:
         return False
-    body = None
-    for r in (merge, js):
-        if r is not None and r.get("response") == 200 and isinstance(r.get("result"), dict):
-            body = r["result"]
-        elif r is not None and r is merge:
-            return True          # the merge patch failed: patch_obj gives up, no version
+    if merge is not None and merge.get("response") != 200:
+        return False             # 404: patch_obj gives up, neither a version nor a remaining patch
+    body = merge["result"] if merge is not None and isinstance(merge.get("result"), dict) else None
+    if js is not None:
+        if js.get("response") == 200 and isinstance(js.get("result"), dict):
+            body = js["result"]
+        elif js.get("response") == 422 and body is None:
+            return True          # unknown outcome
+        elif js.get("response") not in (200, 422):
+            return False
     if body is None:
-        return True
+        return False
     m = _meta(body)
     if m.get("deletionTimestamp") and not m.get("finalizers"):
         return True
